@@ -363,5 +363,5 @@ void target_run(void)
 size_t target_gen(uint64_t seed, uint64_t index, uint8_t *buf, size_t cap)
 {
 	struct vz_rng r; rng_seed(&r, seed, index);
-	return vz_gen_default(&r, buf, cap, 8, 64);
+	return vz_gen_default(&r, buf, cap, 24, 96);
 }
